@@ -318,10 +318,16 @@ def judge_tree(ctx, t, n, E, root, cls):
         for w in adj[v]:
             depth[w] = depth[v] + 1
             stack.append(w)
+    # the parent relation first, for all vertices: the depth queries walk it (a wrong parent could send them round in circles)
+    wrong_parent = False
     for v in range(n):
         p = t.parent(v)
         if (None if p is None else int(p)) != parent.get(v):
             ctx.fail("tree_parent_wrong", cls=cls, vertex=v, edges=sorted(E), root=root)
+            wrong_parent = True
+    if wrong_parent:
+        return
+    for v in range(n):
         if t.depth_of_vertex(v) != depth[v]:
             ctx.fail("tree_depth_wrong", cls=cls, vertex=v, edges=sorted(E), root=root)
         if bool(t.is_leaf(v)) != (len(adj[v]) == 0):
@@ -523,6 +529,12 @@ def w_self_loops(ctx, rng, i):
     g = build(kind, n, edges, gen.points(rng, n, 2), int(rng.integers(0, 3)))
     cls = type(g).__name__
     judge_structure(ctx, g, n, edges, directed, cls + ":self_edges")
+    # a vertex joined to itself is a cycle (of length one) - whatever else the graph holds - and such a graph is no tree
+    ctx.tap("self_loop_is_a_cycle", "calls"); ctx.tap("self_loop_is_a_cycle", "checked")
+    if not g.has_cycles():
+        ctx.fail("has_cycles_wrong", cls=cls, mech="self_loop_not_reported:" + ("only_cycle" if not (ref.has_cycle_directed if directed else ref.has_cycle_undirected)(n, canon_edges([e for e in edges if e[0] != e[1]], directed)) else "among_others"), edges=sorted(edges))
+    if g.is_tree():
+        ctx.fail("is_tree_wrong", cls=cls, mech="graph_with_a_self_loop_called_a_tree", edges=sorted(edges))
     ctx.count_case(("self_loops", kind, n, len(loops)), nontrivial=True)
 
 
@@ -566,8 +578,16 @@ def w_trees(ctx, rng, i):
     order = rng.permutation(len(edges))
     edges = [edges[k] for k in order]         # unsorted edge lists
     how = int(rng.integers(0, 4))
+    wts = None
+    if rng.random() < 0.3:
+        # weighted trees - weights of either sign (a cost can be a gain): an edge is an edge whatever its weight
+        wts = list(rng.uniform(0.5, 4.0, len(edges)) * rng.choice([-1.0, 1.0], len(edges)))
+        how = [0, 2][int(rng.integers(0, 2))]
     try:
-        if how == 0:
+        if wts is not None:
+            A_w = gen.adjacency(n, edges, False, weights=wts, dense=(how == 2))
+            t = ms.PointTree(pts, A_w, root) if how == 0 else ms.Tree(A_w, root)
+        elif how == 0:
             t = ms.PointTree(pts, gen.adjacency(n, edges, False), root)
         elif how == 1:
             t = ms.PointTree.init_from_edges(pts, np.array(edges), root)
@@ -588,7 +608,8 @@ def w_trees(ctx, rng, i):
     # a tree is a directed graph: paths (also from a vertex to itself, and against the edge direction: none) as for any graph
     tp = [(int(a), int(b)) for a, b in rng.integers(0, n, (8, 2))] + [(root, int(rng.integers(0, n))), (int(rng.integers(0, n)),) * 2]
     judge_paths(ctx, t, n, E, True, cls, tp)
-    judge_shortest(ctx, t, n, {e: 1.0 for e in E}, True, cls, tp[:6], unweighted=bool(i % 2))
+    if wts is None:
+        judge_shortest(ctx, t, n, {e: 1.0 for e in E}, True, cls, tp[:6], unweighted=bool(i % 2))
     # a wrong root must be refused (the tree is not an arborescence from there) unless n == 1
     wrong = int((root + 1 + rng.integers(0, n - 1)) % n)
     if wrong != root:
